@@ -11,6 +11,7 @@ import json
 from mon import refbufr as R
 from mon.compare import impl_subset, td_of, opsig, jsonable
 from mon.gen import cases
+from mon.gen import failures
 from mon.gen.shapes import EdgePolicy
 from mon.gen.templates import scoped
 
@@ -263,6 +264,7 @@ def run(ctx):
                     continue
                 ctx.count('shape_cases')
                 ctx.add('shapes', name)
+                failures.maybe(ctx, [dec, decc], [enc])
                 check_case(ctx, dec, enc, msg, 'shape', name, decc, D)
     for nsub in (2, 3, 4):
         for name, msg in cases.same_layout_cases(ctx.rng, nsub=nsub):
@@ -287,6 +289,7 @@ def run(ctx):
             continue
         if too_wide(msg):
             continue
+        failures.maybe(ctx, [dec, decc], [enc])
         check_case(ctx, dec, enc, msg, 'random', None, decc, Dv)
 
 
